@@ -49,7 +49,10 @@ package bridgeservice
 //@ func (b *BridgeService) getFirstL1InfoTreeIndexForL1Bridge
 //@   props C12
 //@   requires b != nil && b.l1InfoTree != nil && b.bridgeL1 != nil
-//@   modifies nothing
+//@   modifies reqFaults, idxAnswer
+//@   set reqFaults := old(reqFaults) + ite(result1 == nil, 0, 1)
+//@   set idxAnswer := result0
+//@   ensures[outcome-recorded] reqFaults == old(reqFaults) + ite(result1 == nil, 0, 1) && idxAnswer == result0
 //@   ensures[covering-or-error] result1 == nil ==> lerIndex(infoMER(result0)) >= depositCount
 //@   ensures[not-yet-covered-is-an-error] (result1 != nil) ==> result0 == 0
 //@   loop 0 invariant bestResult != nil && bestResult.MainnetExitRoot == infoMER(bestResult.L1InfoTreeIndex) && lerIndex(bestResult.MainnetExitRoot) >= depositCount
@@ -61,7 +64,10 @@ package bridgeservice
 //@ func (b *BridgeService) getFirstL1InfoTreeIndexForL2Bridge
 //@   props C12
 //@   requires b != nil && b.l1InfoTree != nil && b.bridgeL2 != nil
-//@   modifies nothing
+//@   modifies reqFaults, idxAnswer
+//@   set reqFaults := old(reqFaults) + ite(result1 == nil, 0, 1)
+//@   set idxAnswer := result0
+//@   ensures[outcome-recorded] reqFaults == old(reqFaults) + ite(result1 == nil, 0, 1) && idxAnswer == result0
 //@   ensures[covering-or-error] result1 == nil ==> exists(l, Hash, lerIndex(l) >= depositCount && isVerified(b.networkID, l, infoRER(result0)))
 //@   ensures[not-yet-covered-is-an-error] (result1 != nil) ==> result0 == 0
 //@   loop 0 invariant bestResult != nil && lerIndex(bestResult.ExitRoot) >= depositCount && isVerified(b.networkID, bestResult.ExitRoot, bestResult.RollupExitRoot)
@@ -71,15 +77,23 @@ package bridgeservice
 // from the L1 bridge syncer against that leaf's mainnet exit root (or from the L2 syncer against the local exit root
 // the rollup exit tree holds for this network under that leaf's rollup exit root), for the deposit count asked for,
 // and the rollup-exit proof is asked for this network against that leaf's rollup exit root.
+// reqFaults counts the look-ups and parameter parses of a request that ended with an error (ghost): a 200 answer may
+// only be given when none did
+//@ ghost var reqFaults int
+//@ ghost var idxAnswer int
 //@ interface github.com/agglayer/aggkit/bridgeservice.L1InfoTreer.GetInfoByIndex (self, ctx, index)
-//@   modifies nothing
+//@   modifies reqFaults
+//@   ensures reqFaults == old(reqFaults) + ite(result1 == nil, 0, 1)
 //@   ensures result1 == nil ==> result0 != nil
 //@ interface github.com/agglayer/aggkit/bridgeservice.Bridger.GetProof (self, ctx, depositCount, localExitRoot)
-//@   modifies nothing
+//@   modifies reqFaults
+//@   ensures reqFaults == old(reqFaults) + ite(result1 == nil, 0, 1)
 //@ interface github.com/agglayer/aggkit/bridgeservice.L1InfoTreer.GetLocalExitRoot (self, ctx, networkID, rollupExitRoot)
-//@   modifies nothing
+//@   modifies reqFaults
+//@   ensures reqFaults == old(reqFaults) + ite(result1 == nil, 0, 1)
 //@ interface github.com/agglayer/aggkit/bridgeservice.L1InfoTreer.GetRollupExitTreeMerkleProof (self, ctx, networkID, root)
-//@   modifies nothing
+//@   modifies reqFaults
+//@   ensures reqFaults == old(reqFaults) + ite(result1 == nil, 0, 1)
 //@ extern github.com/agglayer/aggkit/bridgeservice/types.ConvertToProofResponse (proof)
 //@   modifies nothing
 //@ func (b *BridgeService) ClaimProofHandler
@@ -91,6 +105,8 @@ package bridgeservice
 //@   assert call:GetLocalExitRoot recv == b.l1InfoTree && arg1 == networkID && arg2 == info.RollupExitRoot && networkID == b.networkID
 //@   assert call:GetProof:1 recv == b.bridgeL2 && networkID == b.networkID && arg1 == depositCount && arg2 == localExitRoot
 //@   assert call:GetRollupExitTreeMerkleProof recv == b.l1InfoTree && (arg1 == 0 || arg1 == b.networkID) && arg2 == info.RollupExitRoot
+// a proof is served (status 200) only when every parameter parsed and every one of the look-ups above succeeded
+//@   assert call:JSON arg1 == 200 ==> reqFaults == old(reqFaults)
 
 // the index look-up endpoint (C12): mainnet bridges are looked up against mainnet exit roots, bridges of this network
 // against its local exit roots, for the deposit count asked for; other networks are refused
@@ -101,7 +117,8 @@ package bridgeservice
 //@   modifies nothing
 //@ func parseUintQuery
 //@   trusted
-//@   modifies nothing
+//@   modifies reqFaults
+//@   ensures reqFaults == old(reqFaults) + ite(result1 == nil, 0, 1)
 //@ interface go.opentelemetry.io/otel/metric.Meter.Int64Counter (self, name, options)
 //@   modifies nothing
 //@ interface go.opentelemetry.io/otel/metric.Int64Counter.Add (self, ctx, incr, options)
@@ -112,3 +129,5 @@ package bridgeservice
 //@   modifies heap
 //@   assert call:getFirstL1InfoTreeIndexForL1Bridge networkID == 0 && arg2 == depositCount
 //@   assert call:getFirstL1InfoTreeIndexForL2Bridge networkID == b.networkID && networkID != 0 && arg2 == depositCount
+// an index is served (status 200) only when both parameters parsed and the look-up named one; it is the index the look-up named
+//@   assert call:JSON arg1 == 200 ==> reqFaults == old(reqFaults) && typeIs(arg2, uint32) && unbox(arg2, uint32) == idxAnswer
